@@ -163,7 +163,7 @@ FIRE = [
     ("fermionic-dict-time-not-divided", "C06", [(AU, "            evolve_time = {term: time for term in operator.terms.keys()}", "            evolve_time = {term: time / n_trotter_steps for term in operator.terms.keys()}"),
                                                  (AU, "operator.terms[term]*evolve_time[term]/n_trotter_steps)", "operator.terms[term]*evolve_time[term])")], "K8.trotterize-scaling"),
     # ---- C07
-    ("uccsd-rebuild-only-on-new-words", "C07", [(UCCSD, "        if set(self.pauli_to_angles_mapping.keys()) != set(qubit_op.terms.keys()):", "        if not self.pauli_to_angles_mapping.keys() >= qubit_op.terms.keys():")], "K8.support-change"),
+    ("uccsd-rebuild-only-on-new-words", "C07", [(UCCSD, "        if set(self.pauli_to_angles_mapping.keys()) != set(qubit_op.terms.keys()):", "        if not self.pauli_to_angles_mapping.keys() >= qubit_op.terms.keys():")], "K8.update-equals-rebuild"),
     ("collapse-counter-in-data-dtype", "C16", [(MULTI, "np.linspace(0, len(operator) - 1, len(operator), dtype=int).reshape", "np.linspace(0, len(operator) - 1, len(operator), dtype=operator.dtype).reshape")], "K9.index-range-width"),
     ("vsqs-gate-stride-navigator-not-doubled", "C07", [(VSQSF, "        self.n_var_gates = (self.n_h_init + self.n_h_final + self.n_h_nav) * self.trotter_order", "        self.n_var_gates = (self.n_h_init + self.n_h_final) * self.trotter_order + self.n_h_nav")], "K8.update-equals-rebuild"),
     ("adapt-add-operator-keeps-raw-coefficient", "C07", [(ADAPTF, "            self._var_params_prefactor += [math.copysign(1., coeff)]\n\n            pauli_tuple = list(pauli_term.terms.keys())[0]\n            new_operator", "            self._var_params_prefactor += [coeff]\n\n            pauli_tuple = list(pauli_term.terms.keys())[0]\n            new_operator")], "K8.update-equals-rebuild"),
